@@ -22,6 +22,10 @@ def check(prog, rep):
             rep.obligations.append(o)
     rep.rules["COMMIT-B"] = sub.rules["COMMIT-B"]
     rep.errors += sub.errors
+    # the commit bookkeeping (counter, time of the last flush) belongs to one store: nothing of it is shared between instances
+    from ..rules_store import instance_state
+
+    instance_state(prog, rep)
 
 
 SQ = "aw_datastore/storages/sqlite.py"
